@@ -16,7 +16,7 @@ if not os.path.isdir(wt):
     subprocess.run(["git", "-C", "/repo", "worktree", "add", "-q", "--detach", wt, "HEAD"], check=True)
 
 def clean():
-    subprocess.run(f"git -C {wt} checkout -q -- . && git -C {wt} clean -fdq -e target", shell=True, check=True)
+    subprocess.run(f"git -C {wt} checkout -q -- . && git -C {wt} clean -fdq -e target && git -C {wt} checkout -q --detach $(git -C /repo rev-parse HEAD)", shell=True, check=True)
 
 def sh(cmd, timeout=3600):
     r = subprocess.run(cmd, shell=True, cwd=wt, env=env, capture_output=True, text=True, timeout=timeout)
